@@ -21,6 +21,22 @@ mod verif_c20 {
         true
     }
 
+    /// value denoted by a string of the xsd:integer lexical space (at most 20 bytes), as i128
+    fn denoted_i128(b: &[u8]) -> i128 {
+        let mut i = 0;
+        let mut neg = false;
+        if i < b.len() && (b[i] == b'-' || b[i] == b'+') {
+            neg = b[i] == b'-';
+            i += 1;
+        }
+        let mut v: i128 = 0;
+        while i < b.len() {
+            v = v * 10 + (b[i] - b'0') as i128;
+            i += 1;
+        }
+        if neg { -v } else { v }
+    }
+
     fn dt_is(t: &impl Term, iri: &str) -> bool {
         match t.datatype() {
             Some(d) => d.as_str() == iri,
@@ -38,6 +54,8 @@ mod verif_c20 {
         let lf = Term::lexical_form(&x).unwrap();
         assert!(lf.len() <= 11);
         assert!(is_xsd_integer(lf.as_bytes()));
+        // ... and it denotes x (so any conforming xsd:integer reader gets the value back)
+        assert!(denoted_i128(lf.as_bytes()) == x as i128);
         kani::cover!(x < 0);
         kani::cover!(x > 999_999_999);
     }
